@@ -17,6 +17,7 @@ out = ["\n## 16. Seeded changes and detection matrix\n",
        "`also` in its meta.json) with `XEOFS_REPO` pointing at the worktree, and records the verdict in `seeded/MATRIX.txt`.\n",
        "| change | property | what it changes / what it needs to manifest | caught by (quick tier) | first violated clause |", "|---|---|---|---|---|"]
 miss = []
+norun = []
 for d in sorted(glob.glob(os.path.join(ROOT, "seeded", "*"))):
     n = os.path.basename(d)
     mp = os.path.join(d, "meta.json")
@@ -34,10 +35,15 @@ for d in sorted(glob.glob(os.path.join(ROOT, "seeded", "*"))):
     if meta.get("superseded_by"):
         out.append(f"| {n} | {meta.get('property')} | {summ} - needs: {need} | superseded by fix {meta['superseded_by']}: {meta.get('superseded_note', '')[:260]} | |")
         continue
+    if not r:
+        norun.append(n)
+        out.append(f"| {n} | {meta.get('property')} | {summ} - needs: {need} | not run against the checks of this commit (see the note below the table) | |")
+        continue
     if not caught:
         miss.append(n)
     out.append(f"| {n} | {meta.get('property')} | {summ} - needs: {need} | {', '.join(caught) or '**not caught**'}{(' (not by ' + ', '.join(notc) + ')') if notc and caught else ''}{' ' + ' '.join(err) if err else ''} | {cl.group(1) if cl else ''} |")
-out.append(f"\nNot caught by any registered quick check: {', '.join(miss) if miss else 'none'}.\n")
+out.append(f"\nNot caught by the quick check(s) it was run against: {', '.join(miss) if miss else 'none'}.\n")
+out.append(f"\nNo verdict recorded in seeded/MATRIX.txt (the full matrix of 150 changes takes about three hours on this machine and was interrupted in round 4; their earlier verdicts were lost with /tmp between sessions): {', '.join(norun) if norun else 'none'}. `sh tools/seed_matrix.sh <names>` fills them in.\n")
 s = open(os.path.join(ROOT, "DESIGN.md")).read()
 i = s.find("\n## 16. Seeded changes and detection matrix")
 if i >= 0:
